@@ -1,5 +1,5 @@
 (* Property C16 - print-then-parse round trip: precedence, grouping, layout and literal fidelity. RF (AtomsSel.v) is the rendering relation: every text a printer may emit for a tree; c16_final_parse says the parser (declarative semantics of the table regenerated from grammar.go, through engine completeness) reads every such text back as the tree. Statements only. *)
-From Coq Require Import List String ZArith NArith Bool. From Bexpr Require Import Base Strconv Ast Unicode Peg Typing Actions GoGrammar Sem Calc Calc2 Lex Lex2 Lex3 Skel Top C10 C16 Glue Spell Ptr StrLit Values Num NumLit Sels Coll Bind2 AtomsIn AtomsOp AtomsNotIn AtomsSel AtomsLeft Fidelity Fid4 Univ Eval EndToEnd. Import ListNotations.
+From Coq Require Import List String ZArith NArith Bool. From Bexpr Require Import Base Strconv Ast Unicode Peg Typing Actions GoGrammar Sem Calc Calc2 Lex Lex2 Lex3 Skel Top C10 C16 Glue Spell Ptr StrLit Values Num NumLit Sels Coll Bind2 AtomsIn AtomsOp AtomsNotIn AtomsSel AtomsLeft AtomsBare Fidelity Fid4 Univ Eval EndToEnd. Import ListNotations.
 
 Theorem c16_quoted_literal :
   forall s : string, unquote (quote_double s) = Some s.
@@ -150,3 +150,48 @@ Theorem number_left_of_not_in :
     Accepted (VExpr (EMatch {| stype := SelBexpr; spath := ["a"; "b"] |} OpNotIn (Some "-2.5"))) n.
 Proof. exact AtomsLeft.number_left_of_not_in. Qed.
 Print Assumptions number_left_of_not_in.
+
+
+(* values written as selectors (a bare word, a dotted word, a bracketed selector) on the left of `in` / `not in`: the first two
+   alternatives of MatchExpression take the word for the subject, fail on the operator and restore; the third reads it as the value.
+   c16_all_parse is c16_final_parse over the complete atom universe (atomA = atomF + these) *)
+Theorem c16_all_parse :
+  forall (input : string) (e : expr) (t w0 w1 : list cell),
+  rOr atomA atxtA aexpA chdr h_txt h_op h_sel h_bind e t ->
+  Forall is_ws w0 ->
+  Forall is_ws w1 ->
+  utf8_cells input = (w0 ++ t ++ w1)%list ->
+  all_valid (utf8_cells input) ->
+  exists f0 : nat, forall f : nat, (f0 <= f)%nat -> exists n : N, parse go_grammar None action_sem pred_sem f input = Accepted (VExpr e) n.
+Proof. exact AtomsBare.c16_all_parse. Qed.
+Print Assumptions c16_all_parse.
+
+Theorem bare_left_values_exist :
+  forall (c : cell) (cs : list cell) (segs : list seg),
+  class_match cls_id_head (crune c) = true ->
+  id_tail_ok cs ->
+  Forall seg_ok segs ->
+  crune c <> 110 ->
+  forall (l : oplay) (sr : selr) (neg : bool),
+  exists a : batom,
+    b_txt a = ((c :: cs ++ segs_cells segs []) ++ m_optext neg l (s_txt sr ++ []))%list /\
+    b_exp a =
+    EMatch (s_val sr) (if neg then OpNotIn else OpIn)
+      (Some (selector_string {| stype := SelBexpr; spath := cells_str (c :: cs) :: map seg_part segs |})).
+Proof. exact AtomsBare.bare_left_values_exist. Qed.
+Print Assumptions bare_left_values_exist.
+
+Theorem bare_left_of_in :
+  exists n : N,
+    parse go_grammar None action_sem pred_sem 5000 "web in tags" =
+    Accepted (VExpr (EMatch {| stype := SelBexpr; spath := ["tags"] |} OpIn (Some "web"))) n.
+Proof. exact AtomsBare.bare_left_of_in. Qed.
+Print Assumptions bare_left_of_in.
+
+Theorem dotted_left_of_not_in :
+  exists n : N,
+    parse go_grammar None action_sem pred_sem 5000 "a.b not in m[""k""]" =
+    Accepted (VExpr (EMatch {| stype := SelBexpr; spath := ["m"; "k"] |} OpNotIn (Some "a.b"))) n.
+Proof. exact AtomsBare.dotted_left_of_not_in. Qed.
+Print Assumptions dotted_left_of_not_in.
+
